@@ -24,6 +24,7 @@ PROPS = ["C%02d" % i for i in range(1, 21)]
 NEVER_FROM = {"C20"}
 NEVER_INTO = {"C20"}          # rejection / non-interference does not depend on what the operations compute
 SAME_ANCHOR = {("C09", "C08")}   # (P, Q): Q's rules at P's own anchor functions are imported too (convergence needs the residual bookkeeping)
+F64_ONLY = {"C08", "C09", "C16"}   # Sparse<f64> Krylov solvers, Vector<f64>::dot_f64: their anchors are monomorphic in f64
 SKIP_FAMILIES = ("floor", "engine", "intact", "state", "no-hidden-state", "no-unsafe", "guard", "witness", "pdb", "anchor",
                  "eval-count", "bounded", "schedule-free", "reject", "delegated-reject", "range-guards", "accessor-guards",
                  "step-solver", "residual-norm", "dep")
@@ -72,6 +73,8 @@ def run(prop, rep, pdb):
     elem_impls = {}
     for f in pdb.local_fns():
         tr, st = f.get("impl_trait"), str(f.get("impl_self") or "")
+        if prop in F64_ONLY and st.startswith("complex::Complex"):
+            continue          # the property quantifies over f64 data only: no Complex impl is ever instantiated from its anchors
         if tr and (st.startswith("complex::Complex") or f.get("file") == "src/traits.rs"):
             elem_impls.setdefault("%s::%s" % (tr, f.get("name")), []).append(f)
 
@@ -92,7 +95,7 @@ def run(prop, rep, pdb):
         fn = pdb.fn(p)
         if fn is None:
             continue
-        work.extend(cf for cf, _ in local_callees(pdb, fn))
+        work.extend(cf for cf, _ in local_callees(pdb, fn) if cf["path"] != fn["path"])      # a self-call (restart) is not a dependency
         work.extend(trait_callees(fn))
     while work:
         cf = work.pop()
